@@ -276,7 +276,7 @@ func (e *Engine) Translate(key string, ct *Contract) []*FnResult {
 const prelude = `(set-option :produce-models true)
 (set-logic ALL)
 (declare-datatypes ((Slice 0)) (((mk-slice (s.base Int) (s.off Int) (s.len Int) (s.cap Int)))))
-(define-fun wf-slice ((s Slice)) Bool (and (>= (s.base s) 0) (>= (s.off s) 0) (>= (s.len s) 0) (<= (s.len s) (s.cap s)) (=> (= (s.base s) 0) (= (s.cap s) 0))))
+(define-fun wf-slice ((s Slice)) Bool (and (>= (s.base s) 0) (>= (s.off s) 0) (>= (s.len s) 0) (<= (s.len s) (s.cap s)) (<= (+ (s.off s) (s.cap s)) 9223372036854775807) (=> (= (s.base s) 0) (= (s.cap s) 0))))
 (declare-sort Str 0)
 (declare-fun slen (Str) Int)
 (declare-fun sidx (Str Int) Int)
